@@ -13,7 +13,10 @@ use datafusion::functions::core::expr_fn::{coalesce, nullif};
 use datafusion::functions::math::expr_fn::abs;
 use datafusion::functions_aggregate::expr_fn::{count, count_distinct, max, min, sum, sum_distinct};
 use datafusion::functions_aggregate::count::count_all;
-use datafusion::logical_expr::{Expr, JoinType, Operator, binary_expr, exists, in_subquery, not_exists, not_in_subquery, out_ref_col, scalar_subquery, when};
+use datafusion::functions_aggregate::{count::count_udaf, min_max::{max_udaf, min_udaf}, sum::sum_udaf};
+use datafusion::functions_window::expr_fn::{dense_rank, rank, row_number};
+use datafusion::logical_expr::expr::WindowFunction;
+use datafusion::logical_expr::{Expr, ExprFunctionExt, JoinType, Operator, WindowFunctionDefinition, binary_expr, exists, grouping_set, in_subquery, not_exists, not_in_subquery, out_ref_col, scalar_subquery, when};
 use datafusion::prelude::*;
 use serde_json::{Value, json};
 use std::sync::Arc;
@@ -200,6 +203,7 @@ impl Builder {
                 self.used("scalar_subquery");
                 scalar_subquery(Arc::new(sub.df.into_unoptimized_plan()))
             }
+            "quant" => return Err("unsupported: no DataFrame helper for quantified subquery comparisons".into()),
             o => return Err(format!("expr op {o}")),
         })
     }
@@ -411,6 +415,147 @@ impl Builder {
                 self.used("limit");
                 Ok(Node { df: src.df.limit(p["skip"].as_u64().unwrap() as usize, if fetch < 0 { None } else { Some(fetch as usize) }).map_err(s)?, names: src.names, kinds: src.kinds })
             }
+            "window" => {
+                let src = self.build(&p["src"], outer)?;
+                let c = |i: u64| col(Column::from_name(src.names[i as usize - 1].clone()));
+                let f = p["f"].as_str().unwrap();
+                let arg = p["arg"].as_u64().unwrap();
+                let base = match f {
+                    "rank" => rank(),
+                    "dense_rank" => dense_rank(),
+                    "row_number" => row_number(),
+                    _ => {
+                        let (udaf, args) = match f {
+                            "sum" => (sum_udaf(), vec![c(arg)]),
+                            "count" => (count_udaf(), vec![c(arg)]),
+                            "min" => (min_udaf(), vec![c(arg)]),
+                            "max" => (max_udaf(), vec![c(arg)]),
+                            "countstar" => (count_udaf(), vec![lit(1i64)]),
+                            o => return Err(format!("window {o}")),
+                        };
+                        Expr::WindowFunction(Box::new(WindowFunction::new(WindowFunctionDefinition::AggregateUDF(udaf), args)))
+                    }
+                };
+                let part: Vec<Expr> = p["part"].as_array().unwrap().iter().map(|i| c(i.as_u64().unwrap())).collect();
+                let order: Vec<_> = p["order"].as_array().unwrap().iter().map(|k| c(k["i"].as_u64().unwrap()).sort(k["asc"].as_bool().unwrap(), k["nf"].as_bool().unwrap())).collect();
+                let mut b = base.partition_by(part);
+                if !order.is_empty() {
+                    b = b.order_by(order);
+                }
+                let mut names: Vec<String> = (0..src.names.len() + 1).map(out).collect();
+                let wname = names.pop().unwrap();
+                let we = b.build().map_err(s)?.alias(&wname);
+                self.used("window");
+                let df = src.df.window(vec![we]).map_err(s)?;
+                self.used("select");
+                let mut sel: Vec<Expr> = src.names.iter().enumerate().map(|(i, n)| col(Column::from_name(n.clone())).alias(&names[i])).collect();
+                sel.push(col(Column::from_name(wname.clone())));
+                names.push(wname);
+                let mut kinds = src.kinds.clone();
+                kinds.push("i".into());
+                Ok(Node { df: df.select(sel).map_err(s)?, names, kinds })
+            }
+            "aggsets" => {
+                let src = self.build(&p["src"], outer)?;
+                let cur: Row = (&src.names, &src.kinds);
+                let keys = p["keys"].as_array().unwrap();
+                let aggs = p["aggs"].as_array().unwrap();
+                let names: Vec<String> = (0..keys.len() + aggs.len()).map(out).collect();
+                // like the SQL rendering: first a projection that gives every grouping key and aggregate argument its own
+                // column (two keys may be the same source column), then the grouping-set aggregate over these columns
+                let mut kinds = vec![];
+                let mut inner = vec![];
+                let mut knames = vec![];
+                for (j, k) in keys.iter().enumerate() {
+                    kinds.push(self.kind_of(k, cur, outer));
+                    let n = format!("g{me}k{}", j + 1);
+                    inner.push(self.expr(k, cur, outer)?.alias(&n));
+                    knames.push(n);
+                }
+                let mut a = vec![];
+                for (j, ag) in aggs.iter().enumerate() {
+                    let f = ag["f"].as_str().unwrap();
+                    let d = ag["distinct"].as_bool().unwrap();
+                    let e = if f == "countstar" {
+                        kinds.push("i".into());
+                        count_all()
+                    } else {
+                        let xn = format!("g{me}x{}", j + 1);
+                        inner.push(self.expr(&ag["e"], cur, outer)?.alias(&xn));
+                        let x = col(Column::from_name(xn));
+                        kinds.push(if f == "count" { "i".into() } else { self.kind_of(&ag["e"], cur, outer) });
+                        match (f, d) {
+                            ("count", false) => count(x),
+                            ("count", true) => count_distinct(x),
+                            ("sum", false) => sum(x),
+                            ("sum", true) => sum_distinct(x),
+                            ("min", _) => min(x),
+                            ("max", _) => max(x),
+                            _ => return Err(format!("agg {f}")),
+                        }
+                    };
+                    a.push(e.alias(&names[keys.len() + j]));
+                }
+                self.used("select");
+                let base = src.df.select(inner).map_err(s)?;
+                let kcol = |i: u64| col(Column::from_name(knames[i as usize - 1].clone()));
+                let sets: Vec<Vec<Expr>> = p["sets"].as_array().unwrap().iter().map(|st| {
+                    let mut ix: Vec<u64> = st.as_array().unwrap().iter().map(|i| i.as_u64().unwrap()).collect();
+                    ix.sort();
+                    ix.into_iter().map(kcol).collect()
+                }).collect();
+                self.used("aggregate_grouping_sets");
+                let df = base.aggregate(vec![grouping_set(sets)], a).map_err(s)?;
+                let mut sel: Vec<Expr> = knames.iter().enumerate().map(|(j, n)| col(Column::from_name(n.clone())).alias(&names[j])).collect();
+                for j in 0..aggs.len() {
+                    sel.push(col(Column::from_name(names[keys.len() + j].clone())));
+                }
+                self.used("select");
+                Ok(Node { df: df.select(sel).map_err(s)?, names, kinds })
+            }
+            "distincton" => {
+                let src = self.build(&p["src"], outer)?;
+                let n = p["n"].as_u64().unwrap() as usize;
+                let c = |i: usize| col(Column::from_name(src.names[i].clone()));
+                let on: Vec<Expr> = (0..n).map(c).collect();
+                let sel: Vec<Expr> = (0..src.names.len()).map(c).collect();
+                let sort: Vec<_> = (0..src.names.len()).map(|i| c(i).sort(true, false)).collect();
+                self.used("distinct_on");
+                Ok(Node { df: src.df.distinct_on(on, sel, Some(sort)).map_err(s)?, names: src.names, kinds: src.kinds })
+            }
+            // the SQL rendering packs the columns into a struct column; the DataFrame chain reads the columns directly
+            "pack" => self.build(&p["src"], outer),
+            "ufilter" => {
+                let t = p["t"].as_u64().unwrap() as usize - 1;
+                let kinds = self.schemas[t].clone();
+                let names: Vec<String> = (0..kinds.len()).map(out).collect();
+                let all = p["all"].as_bool().unwrap();
+                let mut acc: Option<DataFrame> = None;
+                let wrap = p["wrap"].as_bool().unwrap_or(false);
+                let base_names: Vec<String> = (0..kinds.len()).map(|i| format!("c{}", i + 1)).collect();
+                for pr in p["ps"].as_array().unwrap() {
+                    self.used("select");
+                    self.used("filter");
+                    let sel = (0..kinds.len()).map(|i| col(format!("c{}", i + 1)).alias(&names[i])).collect::<Vec<_>>();
+                    let b = if wrap {
+                        // filter above the aliasing projection
+                        let pred = self.expr(pr, (&names, &kinds), outer)?;
+                        self.tables[t].clone().select(sel).map_err(s)?.filter(pred).map_err(s)?
+                    } else {
+                        let pred = self.expr(pr, (&base_names, &kinds), outer)?;
+                        self.tables[t].clone().filter(pred).map_err(s)?.select(sel).map_err(s)?
+                    };
+                    acc = Some(match acc {
+                        None => b,
+                        Some(a) => {
+                            self.used(if all { "union" } else { "union_distinct" });
+                            if all { a.union(b) } else { a.union_distinct(b) }.map_err(s)?
+                        }
+                    });
+                }
+                Ok(Node { df: acc.unwrap(), names, kinds })
+            }
+            "lateral" => Err("unsupported: no DataFrame call builds a LATERAL join".into()),
             o => Err(format!("plan op {o}")),
         }
     }
